@@ -65,6 +65,10 @@ var Seeds = []Seed{
 	{"k7/2Q5/8/8/3Pp3/4K3/8/8 b - d3 0 2", "ep only-legal-move"},                                           // ... for Black (all three from the demonstration of seeded change C20n)
 	{"7k/4N2p/4b3/3pP3/8/8/8/BK6 w - d6 0 1", "ep mate-only-by-ep low"},                                    // the en passant capture is the only mate in one (discovered)
 	{"r1bq1r2/pp2n3/4N2k/3pPppP/1b1n2Q1/2N5/PP3PP1/R1B1K2R w KQ g6 0 15", "ep mate-only-by-ep big castle"}, // Gundersen - Faul 1928: 15.hxg6 e.p. mate
+	// a rook captured on its home corner BY A PROMOTING PAWN while the right is held, with a second rook
+	// that can take its place: a right that outlives its rook shows as an illegal castling three plies on
+	{"4k2r/6P1/8/7r/8/8/8/4K3 w k - 0 1", "promo castle-replacement"},
+	{"8/4k3/8/8/R7/8/1p6/R3K3 b Q - 0 1", "promo castle-replacement"},
 	// promotion edges
 	{"n1n5/PPPk4/8/8/8/8/4Kppp/5N1N b - - 0 1", "promo big"},
 	{"n1n5/PPPk4/8/8/8/8/4Kppp/5N1N w - - 0 1", "promo big"},
